@@ -299,6 +299,26 @@ func CompareTsToPublished(tc *TsContent, units []media.Unit, hevc bool, aacSr in
 			if u.Key && len(v.Params) == 0 {
 				return fmt.Sprintf("key frame unit %d is not preceded by parameter sets in the TS access unit", u.Idx), 0, 0
 			}
+			// the parameter sets re-inserted before a key frame are those of the sequence header in force when it was published
+			if u.Key {
+				var want [][]byte
+				if hevc {
+					a, b, c := media.HevcParamSets(u.Inc, u.HdrGen)
+					want = [][]byte{a, b, c}
+				} else {
+					a, b := media.AvcParamSets(u.Inc, u.HdrGen)
+					want = [][]byte{a, b}
+				}
+				for _, ps := range v.Params {
+					ok := false
+					for _, w := range want {
+						ok = ok || bytes.Equal(ps, w)
+					}
+					if !ok {
+						return fmt.Sprintf("key frame unit %d (ts=%d) carries a parameter set (%d bytes, %x...) that is not one of the sequence header in force when it was published (header generation %d)", u.Idx, u.Ts, len(ps), head(ps, 8), u.HdrGen), 0, 0
+					}
+				}
+			}
 		}
 		nVideo = len(tc.Video)
 		if complete && start+len(tc.Video) != len(pv) {
